@@ -5,6 +5,7 @@ import Driver.Eval
 import Driver.Settings
 import Driver.Dispatcher
 import Driver.Sched
+import Driver.Priority
 namespace Driver
 
 def dispatch (line : String) : String :=
@@ -12,6 +13,7 @@ def dispatch (line : String) : String :=
   | "xxh" :: rest => (handleXxh rest).getD "bad-op"
   | "pout" :: rest => (handlePout rest).getD "bad-op"
   | "parse" :: rest => (handleParse rest).getD "bad-op"
+  | "prio" :: rest => (handlePrio rest).getD "bad-op"
   | "sched" :: rest => (handleSched rest).getD "bad-op"
   | "disp" :: rest => (handleDisp rest).getD "bad-op"
   | "settings" :: rest => (handleSettings rest).getD "bad-op"
